@@ -43,7 +43,9 @@ CONFIG = {
         'the lock-discipline model',
         'data races are represented only through the hand-written access annotations of the sections (cc_acc)',
         'a section is atomic in the model: preemption inside a section is not modelled; the transient FileData mutexes taken '
-        'inside a section under mu appear as acquire/release pairs before its body',
+        'inside a section under mu appear as acquire/release pairs before its body; the NESTED holds of Rename (the two parents, the '
+        'directory whose children are re-keyed, the renamed child: always under mu write-locked) are compiled as written (cc_rename_code), '
+        'its effect on the tree is one action after them',
         'map iteration order in RemoveAll is one legal order (keys present when the loop starts, ascending; later insertions not visited)',
         'runtime fatal errors other than "unlock of an unlocked mutex" and deadlock are not modelled (concurrent map access is '
         'covered by the lockset statement on the field FMap only)',
